@@ -118,6 +118,7 @@ type Engine struct {
 	errGlobals []string
 	specAxioms []string
 	ghosts     map[string]*synth
+	useStreq   bool
 }
 
 func newEngine(w *World, pk *Pkg, c *Contract) *Engine {
@@ -472,6 +473,7 @@ func (e *Engine) heapGet(st *State, name, sort string) string {
 	}
 	n := fmt.Sprintf("%s!e%s", name, ep)
 	e.declare(n, sort)
+	st.heaps[name] = n // remember the lazily named heap so that merges of different epochs keep what is known about it
 	return n
 }
 
@@ -637,6 +639,15 @@ func (e *Engine) merge(states []*State) *State {
 	for _, s := range live {
 		for k := range s.heaps {
 			hn[k] = true
+		}
+	}
+	if !sameEpoch {
+		// the merged state gets a new epoch: every heap the unit has touched so far must be carried over
+		// explicitly, or what is known about it in the branches would be forgotten
+		for k := range e.sortDone {
+			if name, ok := strings.CutPrefix(k, "heap:"); ok {
+				hn[name] = true
+			}
 		}
 	}
 	var hs []string
